@@ -17,7 +17,8 @@ EXPLANATION = (
     "uses ceil((t_end-t0)/tau) steps, t = t0+(i+1)*tau, paired appends; (R12.4) Newton returns only under the residual test and "
     "otherwise raises; (R12.5) newton_J is the derivative of newton_F, x_est is x_new with b_hat for b, stage sums are strictly "
     "lower triangular; (R12.6) every public method is registered with its own coefficient function and name; (R12.7) both step "
-    "functions accept M=None.")
+    "functions accept M=None; (R12.8) in the adaptive driver every loop-carried input of the stepper (x, t, Fx) changes only "
+    "under the acceptance test r <= 1, so a rejected trial leaves the state of the last accepted step.")
 DOES_NOT_DECIDE = "that a step satisfies the stage equations numerically; Newton tolerance effects; stability properties"
 TECHNIQUE = "constant folding of coefficient-table syntax trees + order-condition evaluation; guard dominance / control dependence; symbolic sibling comparison"
 
